@@ -65,12 +65,17 @@ CHECKS['C03'] = dict(
     note='A solver decides structure and limits, not byte equality of BLAKE3/HKDF/MD5/AES-GCM outputs with an independent implementation (those are pinned by the repository known-answer tests); VMess and Trojan sender layouts, datagram layouts and identity-header chains are not yet compared. Bounds: first write up to 3 chunks, second up to 2.',
     technique='MIR symbolic execution to z3 (seal log of the real encoders against the specification layout)', design='DESIGN.md section 2, C03 and section 7')
 
+CHECKS['C02'] = dict(
+    text='Datagram-in-stream framings on the real decoders: one datagram in the Trojan UDP framing ([address][length][CRLF][payload], laid out from the protocol description with symbolic payload size 0..65535, content and IPv4 or domain address) followed by an arbitrary tail, with the buffer cut at an arbitrary point, is given to the real server decoder (ServerCodec in its Udp state) and the real client udp::ClientCodec: before the datagram is complete nothing is yielded and nothing is consumed; once it is complete exactly that payload - a window of the received bytes, never truncated, extended or shifted - is yielded with exactly the address on the wire, and exactly the bytes after it are left, so by induction over the datagrams of a stream (the decoders keep no state between datagrams) every stream in every segmentation yields every datagram once, whole and in order. The VMess datagram framing (one authenticated chunk per datagram through the server codec and decode_packet, K items for K datagrams in every segmentation) is decided by the C04 jobs vmess::ServerAeadCodec[..UDP..] and vmess::decode_packet.',
+    note='Outside: ownership and routing (client binding table, server association table, TTLs, select! loops, channels, sockets); Shadowsocks UDP datagram round trips (raw-pointer encoders and the process-wide cipher cache are not executed; their decoders are covered by C07/C10/C11/C12) and Socks5UdpCodec round trips. A change in socket plumbing (e.g. a shrinking receive buffer) is not detected.',
+    technique='MIR symbolic execution to z3 (one-datagram inductive step of the Decoder contract over a symbolic buffer and cut)', design='DESIGN.md section 7, C02')
+
 NOT_APPLICABLE = {
  'C08': 'property is about long-lived async accept/select! loops under injected socket/TLS/DNS faults; no synchronous core that symbolic execution of MIR or Kani can reach (tokio runtime, epoll, FFI)',
  'C09': 'quantifies over thread interleavings of shared state; Kani has no thread model and Engine M is sequential',
  'C15': 'EOF propagation through Stream::forward/try_join!, QUIC finish/stopped and descriptor release are runtime/OS behaviour with no synchronous core to encode',
 }
-PENDING = ['C02', 'C07', 'C10', 'C12', 'C13', 'C14', 'C16']
+PENDING = [ 'C07', 'C10', 'C12', 'C13', 'C14', 'C16']
 
 m = {
  'version': 1,
